@@ -204,6 +204,12 @@ func checkC12(c *core.Ctx) {
 		// shows in the next formatting
 		d0, perr := parser.ParseQuery(&ast.Source{Input: src, Name: "q"})
 		if perr != nil {
+			if i < len(hand) {
+				// a hand-written document is grammatical: if it no longer parses, this check can not do its work
+				// (a case that silently disappears is how a defect hides)
+				c.Internal("hand-written document does not parse: %v: %q", perr, clip(src, 300))
+				return
+			}
 			continue
 		}
 		tree0 := opsBeforeFrags(ProjectQuery(d0))
